@@ -299,7 +299,7 @@ with MsSqlImpl.impl_store.impl_manager as impl:
 
     @impl(ops.str_slice)
     def _str_slice(x, offset, length):
-        return sqa.func.SUBSTRING(x, offset + 1, length)
+        return sqa.func.SUBSTRING(x, offset + 1, length, type_=sqa.String())
 
     @impl(ops.dt_day_of_week)
     def _dt_day_of_week(x):
